@@ -1,6 +1,6 @@
 (* C18 — Strings, JSON escaping and inline substitution preserve text
    faithfully.  Property theorems only; each closed by [exact]. *)
-From FendV Require Import Base.Prelude Text.Json Text.JsonProofs.
+From FendV Require Import Base.Prelude Text.Json Text.JsonProofs Fmt.StringLit Fmt.StringLitProofs.
 Open Scope N_scope.
 
 (* The JSON escaper never reaches one of its four unwrap()s on Unicode text,
@@ -38,6 +38,24 @@ Theorem C18_inline_json : forall ps,
                            /\ Forall (fun k => 32 <= k <= 126) b) ps bodies.
 Proof. exact inline_json_lemma. Qed.
 Print Assumptions C18_inline_json.
+
+(* A string literal denotes exactly the text its escape sequences define:
+   for every structured literal (plain characters, each documented named
+   escape, \xHH, \u{...}, \^X, \z followed by ASCII whitespace), in either
+   quote style, with anything after the closing quote, the model of
+   lexer.rs parse_string_literal returns the denoted text and the rest. *)
+Theorem C18_strlit_roundtrip : forall term items rest,
+  (term = 34 \/ term = 39) ->
+  wf_items term items = true ->
+  parse_string_literal term (show_items items ++ term :: rest) =
+  SLOk (denote_items items, rest).
+Proof. exact strlit_roundtrip. Qed.
+Print Assumptions C18_strlit_roundtrip.
+
+Example C18_strlit_hypothesis_inhabited :
+  wf_items 34 [Plain 97; EscNamed 110; EscHex 4 1 false; EscUni [49; 100; 53; 52; 97]; EscCtrl 64;
+               EscZ [32; 10]; Plain 160; Plain 39] = true.
+Proof. vm_compute. reflexivity. Qed.
 
 (* non-vacuity: a text mixing ASCII, escapes, a control character, a BMP
    character and an astral character satisfies the hypothesis *)
